@@ -1,1 +1,204 @@
-fn main() { println!("{}", wgsl_to_wgpu::create_shader_module_embedded("@fragment fn main() {}", Default::default()).unwrap()); }
+//! replay — witness search / replay for the wgsl_to_wgpu properties.
+//!
+//!   replay <PROP_ID> [--seed N] [--tier quick|thorough] [--out FILE]
+//!   replay <PROP_ID> --case FILE.json        re-run one recorded failure
+//!   replay list                              implemented property ids
+//!   replay dump FILE.wgsl                    (debug aid) print the library output for a shader
+//!
+//! Exit code 0 when the run completed (failures are data, not errors), 3 on an internal error.
+
+mod common;
+mod gen;
+mod json;
+#[path = "props/mod.rs"]
+mod props;
+
+use common::*;
+use json::Json;
+use std::collections::HashSet;
+
+fn internal(msg: impl AsRef<str>) -> ! {
+    eprintln!("replay: internal error: {}", msg.as_ref());
+    std::process::exit(3)
+}
+
+fn failure_json(f: &Failure) -> Json {
+    Json::Obj(vec![
+        ("case".into(), Json::str(&*f.case)),
+        ("wgsl".into(), Json::str(&*f.wgsl)),
+        ("options".into(), Json::str(&*f.options)),
+        ("check".into(), Json::str(&*f.check)),
+        ("expected".into(), Json::str(&*f.expected)),
+        ("observed".into(), Json::str(&*f.observed)),
+    ])
+}
+
+fn main() {
+    let args: Vec<String> = std::env::args().skip(1).collect();
+    if args.is_empty() {
+        eprintln!("usage: replay <PROP_ID> [--seed N] [--tier quick|thorough] [--out FILE] | replay <PROP_ID> --case FILE.json");
+        std::process::exit(3);
+    }
+    install_quiet_panic_hook();
+
+    // hidden helper used by C18 (cross-process determinism): print the library output for a case file
+    if args[0] == "__emit" {
+        let text = std::fs::read_to_string(&args[1]).unwrap_or_else(|e| internal(format!("{e}")));
+        let j = json::parse(&text).unwrap_or_else(|e| internal(e));
+        let wgsl = j.get("wgsl").and_then(|v| v.as_str()).unwrap_or_else(|| internal("no wgsl"));
+        let params = Params::parse(j.get("options").and_then(|v| v.as_str()).unwrap_or("")).unwrap_or_else(|e| internal(e));
+        match run_lib(wgsl, &params) {
+            LibResult::Ok(t) => print!("OK\n{t}"),
+            other => print!("{}", other.short()),
+        }
+        return;
+    }
+    if args[0] == "list" {
+        for p in props::all() {
+            println!("{}", p.id());
+        }
+        return;
+    }
+    if args[0] == "dump" {
+        let src = std::fs::read_to_string(&args[1]).unwrap_or_else(|e| internal(format!("{e}")));
+        let mut params = Params::default();
+        if args.iter().any(|a| a == "--validate") {
+            params = params.validated(true);
+        }
+        if args.iter().any(|a| a == "--module") {
+            println!("{:#?}", naga_parse(&src));
+        }
+        match run_lib(&src, &params) {
+            LibResult::Ok(t) => println!("{t}"),
+            other => println!("{}", other.short()),
+        }
+        return;
+    }
+
+    let id = args[0].to_uppercase();
+    let mut seed: u64 = 1;
+    let mut tier = Tier::Quick;
+    let mut out: Option<String> = None;
+    let mut case_file: Option<String> = None;
+    let mut i = 1;
+    while i < args.len() {
+        let val = |i: usize| args.get(i + 1).cloned().unwrap_or_else(|| internal(format!("{} needs a value", args[i])));
+        match args[i].as_str() {
+            "--seed" => {
+                seed = val(i).parse().unwrap_or_else(|_| internal("bad --seed"));
+                i += 1
+            }
+            "--tier" => {
+                tier = match val(i).as_str() {
+                    "quick" => Tier::Quick,
+                    "thorough" => Tier::Thorough,
+                    _ => internal("bad --tier"),
+                };
+                i += 1
+            }
+            "--out" => {
+                out = Some(val(i));
+                i += 1
+            }
+            "--case" => {
+                case_file = Some(val(i));
+                i += 1
+            }
+            other => internal(format!("unknown argument {other}")),
+        }
+        i += 1;
+    }
+
+    let all = props::all();
+    let prop = match all.iter().find(|p| p.id() == id) {
+        Some(p) => p,
+        None => internal(format!("property {id} is not implemented (implemented: {})", all.iter().map(|p| p.id()).collect::<Vec<_>>().join(" "))),
+    };
+
+    // ---- replay of one recorded case ----------------------------------------------------------
+    if let Some(path) = case_file {
+        let text = std::fs::read_to_string(&path).unwrap_or_else(|e| internal(format!("{path}: {e}")));
+        let j = json::parse(&text).unwrap_or_else(|e| internal(format!("{path}: {e}")));
+        // accept either one failure object or a whole report (first failure)
+        let f = match j.get("failures") {
+            Some(Json::Arr(a)) if !a.is_empty() => a[0].clone(),
+            Some(_) => internal("report contains no failure"),
+            None => j,
+        };
+        let s = |k: &str| f.get(k).and_then(|v| v.as_str()).unwrap_or_else(|| internal(format!("case lacks `{k}`"))).to_string();
+        let params = Params::parse(&s("options")).unwrap_or_else(|e| internal(e));
+        let case = Case::new(s("case"), s("wgsl"), params);
+        let o = prop.check(&case);
+        let res = Json::Obj(vec![
+            ("property".into(), Json::str(id.clone())),
+            ("case".into(), Json::str(case.name.clone())),
+            ("still_fails".into(), Json::Bool(!o.failures.is_empty())),
+            ("skipped".into(), o.skipped.clone().map(Json::Str).unwrap_or(Json::Null)),
+            ("failures".into(), Json::Arr(o.failures.iter().take(10).map(failure_json).collect())),
+        ]);
+        emit(&res, out.as_deref());
+        eprintln!("{}", if o.failures.is_empty() { "case passes" } else { "case STILL FAILS" });
+        return;
+    }
+
+    // ---- search -------------------------------------------------------------------------------
+    let cases = prop.cases(seed, tier);
+    let mut failures: Vec<Failure> = vec![];
+    let mut total_failures = 0usize;
+    let mut distinct: HashSet<(String, String)> = HashSet::new();
+    let mut skipped = 0usize;
+    let mut skip_reasons: Vec<String> = vec![];
+    for c in &cases {
+        let o = prop.check(c);
+        if let Some(why) = o.skipped {
+            skipped += 1;
+            if skip_reasons.len() < 5 {
+                skip_reasons.push(format!("{}: {}", c.name, clip(&why).chars().take(300).collect::<String>()));
+            }
+        } else if !c.wgsl.trim().is_empty() {
+            distinct.insert((c.wgsl.clone(), c.params.describe()));
+        }
+        total_failures += o.failures.len();
+        for f in o.failures {
+            // at most 10 recorded, and at most 2 per (case) so that one bad shader does not fill the list
+            if failures.len() < 10 && failures.iter().filter(|g| g.case == f.case).count() < 2 {
+                failures.push(f);
+            }
+        }
+    }
+    let samples: Vec<Json> = if cases.is_empty() {
+        vec![]
+    } else {
+        [0, cases.len() / 2, cases.len() - 1]
+            .iter()
+            .map(|&i| {
+                let c = &cases[i];
+                let first = c.wgsl.lines().find(|l| !l.trim().is_empty()).unwrap_or("").trim();
+                Json::str(format!("{} ({} lines; first: {})", c.name, c.wgsl.lines().count(), first.chars().take(80).collect::<String>()))
+            })
+            .collect()
+    };
+    let report = Json::Obj(vec![
+        ("property".into(), Json::str(id)),
+        ("seed".into(), Json::Num(seed as f64)),
+        ("tier".into(), Json::str(if tier == Tier::Quick { "quick" } else { "thorough" })),
+        ("cases".into(), Json::Num(cases.len() as f64)),
+        ("distinct".into(), Json::Num(distinct.len() as f64)),
+        ("skipped".into(), Json::Num(skipped as f64)),
+        ("skip_reasons".into(), Json::Arr(skip_reasons.into_iter().map(Json::Str).collect())),
+        ("rule".into(), Json::str(prop.rule())),
+        ("failure_count".into(), Json::Num(total_failures as f64)),
+        ("failures".into(), Json::Arr(failures.iter().map(failure_json).collect())),
+        ("samples".into(), Json::Arr(samples)),
+    ]);
+    emit(&report, out.as_deref());
+}
+
+fn emit(j: &Json, out: Option<&str>) {
+    let mut text = j.to_text();
+    text.push('\n');
+    match out {
+        Some(p) => std::fs::write(p, text).unwrap_or_else(|e| internal(format!("{p}: {e}"))),
+        None => print!("{text}"),
+    }
+}
